@@ -175,6 +175,12 @@ fn case_with_word(rc: &RealCase, w: &[u8], mode: u8) -> Value {
 }
 
 /// Walks the reference trie of one module and compares every real observation with the oracle of `property`.
+/// Known finding D13 (C03): in a grammar with unproductive nonterminals the error is reported where the canonical
+/// LR automaton stops, which can be later than the first token that no sentence extends. The class is
+/// computed from the case: unproductive nonterminals exist, and the reported index lies after the literal
+/// index and not after the canonical one.
+pub const CLASS_LATE_UNPRODUCTIVE: &str = "late-report-with-unproductive-nonterminals";
+
 pub fn evaluate_module(property: &str, rc: &RealCase, obs: &std::collections::HashMap<(Vec<u8>, u8), Obs>, compile_error: &Option<String>, hang: &Option<(Vec<u8>, u8)>, capped: bool, acc: &mut Acc) {
     let case = &rc.case;
     if let Some(e) = compile_error {
@@ -231,6 +237,7 @@ pub fn evaluate_module(property: &str, rc: &RealCase, obs: &std::collections::Ha
     };
     let model = bound.as_ref().map(|b| crate::pda::Model { case, b, start_nt: 0 });
     let mut reported = false;
+    let mut late_reported = false;
     // A word below which the real runner did not descend (its run never polled the input past the end of
     // the word, so every extension has the very same outcome) passes its observations on to its extensions.
     let mut stack: Vec<(Vec<u8>, Option<std::rc::Rc<[Option<Obs>; 3]>>)> = vec![(vec![], None)];
@@ -371,6 +378,27 @@ pub fn evaluate_module(property: &str, rc: &RealCase, obs: &std::collections::Ha
                                             acc.inc("rejections before the LR(1) reference stops, at a prefix that no sentence extends (unproductive nonterminals; allowed by the statement)");
                                             break;
                                         }
+                                    }
+                                }
+                            }
+                        }
+                        if agrees {
+                            if let Some(lit) = reduced_analysis.as_ref().and_then(|ra| literal_error_index(ra, &w)) {
+                                // (limit - 1 = index of the reported token, or the length of the word for Err(None))
+                                if limit - 1 > lit {
+                                    acc.inc("rejections reported later than the first token that no sentence extends (known finding D13, grammars with unproductive nonterminals)");
+                                    if !late_reported {
+                                        late_reported = true;
+                                        acc.finding(
+                                            Finding::new(
+                                                "real_case",
+                                                case_with_word(rc, &w, mode),
+                                                format!("rejection of {w:?} reports {} although already token {lit} cannot be extended to any sentence (a nonterminal of the grammar derives no terminal string; a canonical LR parser stops only where no sentential form continues)", o.desc),
+                                                json!(format!("Err(Some(token {lit}))")),
+                                                json!(o.desc),
+                                            )
+                                            .with_class(CLASS_LATE_UNPRODUCTIVE),
+                                        );
                                     }
                                 }
                             }
